@@ -61,6 +61,9 @@ Timeout(c) == /\ cpc[c] = "wait" /\ expired[c]
 Unregister(c) == /\ cpc[c] = "got" /\ ~rlock
                  /\ reg' = reg \ {c} /\ cpc' = [cpc EXCEPT ![c] = "done"]
                  /\ UNCHANGED <<snd, expired, ch, res, rd, rlock, frames>>
+\* a second Request with the FContext of an in-flight request (same op id): the NATS transport rejects it
+\* ("context already registered") and must leave the pending registration alone
+Collide(c) == Variant = "nats" /\ cpc[c] \in {"wait", "got"} /\ ~rlock /\ UNCHANGED vars
 \* ---- reader: Execute -> dispatch ----
 \* lookup under RLock; v is what will be sent: the frame (identified by the op id it carries)
 LookupV(o, v) == /\ rd = <<"idle">> /\ frames < MaxFrames
@@ -80,7 +83,7 @@ DeliverDrop == /\ rd[1] = "send" /\ Len(ch[rd[2]]) >= Cap /\ Dispatch = "nonbloc
                /\ UNCHANGED <<cpc, snd, expired, reg, ch, res, frames>>
 Deliver == DeliverPut \/ DeliverDrop
 Reader == (\E o \in Ops : Lookup(o) \/ Status503(o)) \/ Deliver
-CallerStep(c) == Register(c) \/ SendOk(c) \/ SendFail(c) \/ SendStall(c) \/ Recv(c) \/ RecvErr(c) \/ Timeout(c) \/ Unregister(c)
+CallerStep(c) == Register(c) \/ Collide(c) \/ SendOk(c) \/ SendFail(c) \/ SendStall(c) \/ Recv(c) \/ RecvErr(c) \/ Timeout(c) \/ Unregister(c)
 Next == Reader \/ \E c \in Callers : CallerStep(c) \/ Expire(c)
 \* every deadline eventually passes; callers and reader keep running; the send goroutine owes nothing
 Fair == /\ WF_vars(Deliver)
